@@ -209,6 +209,11 @@ func (e *batchEx) Exec(op string) string {
 		}
 		id := simpeer.NewTxID()
 		listed := id
+		if strings.HasPrefix(sym, "O") {
+			// an id with an odd number of hex digits is no transaction id: the submission is refused
+			id = id[:len(id)-1]
+			listed = hex.EncodeToString([]byte("odd-" + sym)) // no batch can name it: batches carry whole bytes
+		}
 		if strings.HasPrefix(sym, "U") {
 			// a transaction id in UPPER-case hex (accepted by the id check): its record is stored under
 			// that spelling, while a batch derives the key from the id's bytes, i.e. in lower case —
@@ -238,6 +243,20 @@ func (e *batchEx) Exec(op string) string {
 			return fmt.Sprintf("ok keys=%d", changed)
 		}
 		return fmt.Sprintf("err keys=%d", changed)
+	case "disable":
+		// the channel is initialised again with these methods disabled ("-" = none): requests recorded
+		// before stay pending, and a batch listing them still consumes them
+		if len(w) != 2 {
+			return "bad-op"
+		}
+		o := world.Options{}
+		if w[1] != "-" {
+			o.Disabled = strings.Split(w[1], "+")
+		}
+		e.c.L.Strict = false
+		e.c.Reconfigure(o)
+		e.c.L.Strict = true
+		return "ok"
 	case "batch":
 		var ids []string
 		for _, s := range w[1:] {
@@ -500,6 +519,8 @@ func genC05(c *Cfg, emit func([]string)) {
 				sym := fmt.Sprintf("t%d", n)
 				if c.Rng.Intn(8) == 0 {
 					sym = fmt.Sprintf("U%d", n) // submitted under an upper-case hex transaction id
+				} else if c.Rng.Intn(10) == 0 {
+					sym = fmt.Sprintf("O%d", n) // submitted under an id with an odd number of hex digits
 				}
 				method := []string{"script", "script", "script", "scriptNS", "nosuch"}[c.Rng.Intn(5)]
 				h = append(h, fmt.Sprintf("submit %s %s %s %s", sym, method, users[c.Rng.Intn(3)], randScript(c, users)), "ledger")
@@ -528,12 +549,17 @@ func genC05(c *Cfg, emit func([]string)) {
 				if len(syms) == 0 {
 					continue
 				}
+				// now and then the configuration changes between submission and batch: the methods of
+				// pending requests get disabled (and enabled again later)
+				if c.Rng.Intn(5) == 0 {
+					h = append(h, "disable "+[]string{"TxScript", "TxScript+TxScriptNS", "TxTransfer", "-"}[c.Rng.Intn(4)])
+				}
 				h = append(h, "batch "+strings.Join(syms, " "), "ledger")
 				executed = append(executed, syms...)
 			}
 		}
 		emit(h)
 	}
-	c.Rule = fmt.Sprintf("%d histories of 1..12 steps interleaving submissions (valid with/without sender, unknown function, some under upper-case hex transaction ids) and batches whose id lists are multisets of fresh, already executed (succeeded or failed), duplicated (x2/x3) and unknown ids (also empty, 1-, 3- and 300-byte ids); observed: ledger diff of each submission (number of changed keys), per-id reply, and the ledger incl. presence of every pending record after each step. non-trivial = contains a batch; distinct = sha256", nHist)
+	c.Rule = fmt.Sprintf("%d histories of 1..12 steps interleaving submissions (valid with/without sender, unknown function, some under upper-case hex transaction ids or ids with an odd number of hex digits; methods of pending requests disabled and re-enabled by re-initialisation between submission and batch) and batches whose id lists are multisets of fresh, already executed (succeeded or failed), duplicated (x2/x3) and unknown ids (also empty, 1-, 3- and 300-byte ids); observed: ledger diff of each submission (number of changed keys), per-id reply, and the ledger incl. presence of every pending record after each step. non-trivial = contains a batch; distinct = sha256", nHist)
 	c.Extra = map[string]any{"histories": nHist}
 }
